@@ -209,11 +209,40 @@ def cfg_class(bad_specs, all_specs):
     return ("+".join(parts) + "-only") if parts else "some-configs"
 
 
-def miss_key(min_key, bad_specs, all_specs):
+_TAGS = None
+
+
+def atom_tags(kind, variant):
+    global _TAGS
+    if _TAGS is None:
+        _TAGS = {(a["Kind"], a["Variant"]): set(a.get("Tags") or []) for a in catalogue()["atoms"]}
+    return _TAGS.get((kind, variant), set())
+
+
+def closure_result_family(minimal):
+    """structural test on a MINIMISED scenario: some atom whose output is a value returned by a closure / bound-method call
+    (tag returns-from-closure-call) is followed - at the same or a later position - by an atom that stores into / reads from
+    closure state created in another function (tag closure-state-consumer), and the minimal chain consists of nothing but
+    such atoms (an unrelated third component means the miss is not this family)"""
+    atoms = minimal.get("atoms", [])
+    if len(atoms) < 2 or minimal.get("src", "direct") != "direct" or minimal.get("wrap", "direct") != "direct":
+        return False
+    tags = [atom_tags(a["kind"], a["variant"]) for a in atoms]
+    if not all(t for t in tags):
+        return False
+    for i, t in enumerate(tags):
+        if "returns-from-closure-call" in t and any("closure-state-consumer" in u for u in tags[i + 1:]):
+            return True
+    return False
+
+
+def miss_key(min_key, bad_specs, all_specs, minimal=None):
     """finding key of a minimised miss: [<config class>[-combo]:]<atom keys joined by +>.  Misses that need a combination of
     atoms AND occur only in one configuration class get the -combo infix (field-sensitive mode has an open-ended family
     of those, listed under one wildcard)."""
     c = cfg_class(bad_specs, all_specs)
+    if minimal is not None and closure_result_family(minimal):
+        return "closure-result-into-closure-state:%s:%s" % (c or "all-configs", min_key)
     if not c:
         return min_key
     return c + ("-combo:" if "+" in min_key else ":") + min_key
